@@ -137,15 +137,9 @@ class Fn:
         for bb, k, rv in defs:
             if rv["k"] == "use" and rv["op"]["k"] == "const" and rv["op"].get("int") is not None:
                 continue
-            if rv["k"] == "use" and rv["op"]["k"] in ("move", "copy"):
-                pl = rv["op"]["place"]
-                if len(pl["p"]) == 1 and isinstance(pl["p"][0], dict) and pl["p"][0].get("field") == "0":
-                    sd = bnd.single_def(pl["l"])
-                    if sd and sd[2]["k"] == "binop" and sd[2]["op"] in ("AddWithOverflow", "SubWithOverflow"):
-                        l, r = sd[2]["l"], sd[2]["r"]
-                        if l["k"] in ("copy", "move") and not l["place"]["p"] and root_local(bnd, l["place"]["l"]) == local and \
-                                r["k"] == "const" and r.get("int") is not None and abs(r["int"]) <= 8:
-                            continue
+            f = inc_form(bnd, rv)
+            if f is not None and f[0] == local and abs(f[1]) <= 8:
+                continue
             return False
         return True
 
@@ -477,8 +471,30 @@ def run(ctx):
     stale = [e for e in reviewed if id(e) not in used_reviews]
     if stale:
         ctx.note("reviewed entries matching no open site on this tree (they suppress nothing): %s" % [
-            (e["fn"], e["kind"], e["what"]) for e in stale])
+            (e["fn"], e["kind"], e.get("req")) for e in stale])
     ctx.floor("sites", sum(counts.values()), 100, "panic sites in parser-reachable code")
+
+
+def inc_form(bnd, rv):
+    """`x + c` / `x - c` as assigned by one statement, in the checked (dev) or plain (release) MIR form:
+    returns (local x after following copies, signed constant) or None."""
+    binop = None
+    if rv["k"] == "binop" and rv["op"] in ("Add", "Sub"):
+        binop = rv
+    elif rv["k"] == "use" and rv["op"]["k"] in ("copy", "move"):
+        pl = rv["op"]["place"]
+        if len(pl["p"]) == 1 and isinstance(pl["p"][0], dict) and pl["p"][0].get("field") == "0":
+            sd = bnd.single_def(pl["l"])
+            if sd and sd[2]["k"] == "binop" and sd[2]["op"] in ("AddWithOverflow", "SubWithOverflow"):
+                binop = sd[2]
+    if binop is None:
+        return None
+    l2, r2 = binop["l"], binop["r"]
+    if r2["k"] != "const" or r2.get("int") is None or l2["k"] not in ("copy", "move") or l2["place"]["p"]:
+        return None
+    c = r2["int"] if binop["op"].startswith("Add") else -r2["int"]
+    return root_local(bnd, l2["place"]["l"]), c
+
 
 
 def root_local(bnd, l):
@@ -498,20 +514,13 @@ def skip_ahead(fn, c, j, at_bb, blocks):
     bnd, b = fn.bnd, fn.b
     inits = []
     for bb, k, rv in bnd.defs.get(j, []):
-        if rv["k"] == "use" and rv["op"]["k"] in ("copy", "move"):
-            pl = rv["op"]["place"]
-            if len(pl["p"]) == 1 and isinstance(pl["p"][0], dict) and pl["p"][0].get("field") == "0":
-                sd = bnd.single_def(pl["l"])
-                if sd and sd[2]["k"] == "binop" and sd[2]["op"] == "AddWithOverflow":
-                    l2, r2 = sd[2]["l"], sd[2]["r"]
-                    if r2["k"] == "const" and (r2.get("int") or 0) >= 1 and l2["k"] in ("copy", "move") and not l2["place"]["p"]:
-                        src = root_local(bnd, l2["place"]["l"])
-                        if src == c:
-                            inits.append((bb, k))
-                            continue
-                        if src == j:
-                            continue          # j += const
-        return False
+        f = inc_form(bnd, rv)
+        if f is None or f[1] < 1:
+            return False
+        if f[0] == c:
+            inits.append((bb, k))
+        elif f[0] != j:
+            return False
     if len(inits) != 1:
         return False
     ib, ik = inits[0]
@@ -611,14 +620,13 @@ def loop_terminates(fn, head, blocks):
             inc_blocks = set()
             for bb, k, r in defs_in:
                 step = None
-                if r["k"] == "use" and r["op"]["k"] in ("copy", "move"):
+                f = inc_form(bnd, r)
+                if f is not None and f[0] == c:
+                    step = f[1]
+                elif r["k"] == "use" and r["op"]["k"] in ("copy", "move"):
                     pl = r["op"]["place"]
-                    if len(pl["p"]) == 1 and isinstance(pl["p"][0], dict) and pl["p"][0].get("field") == "0":
-                        sd2 = bnd.single_def(pl["l"])
-                        if sd2 and sd2[2]["k"] == "binop" and sd2[2]["op"] in ("AddWithOverflow", "SubWithOverflow"):
-                            l2, r2 = sd2[2]["l"], sd2[2]["r"]
-                            if l2["k"] in ("copy", "move") and not l2["place"]["p"] and root_local(bnd, l2["place"]["l"]) == c and r2["k"] == "const":
-                                step = r2["int"] if sd2[2]["op"].startswith("Add") else -r2["int"]
+                    if pl["p"]:
+                        pass
                     elif not pl["p"]:
                         # c = j : accepted when j >= c is provable at that point (the counter never moves backwards)
                         jl = pl["l"]
